@@ -769,6 +769,19 @@ def leftover_runs(rnd, consts, cap):
     out.append(("reuse-diverted-interleaved",          # the later connect is already between the hooks when the first ends
                 pre(d1, d2) + conn(root, d1, p) + [{"op": "connect4", "t": user, "ip": d2[0], "port": d2[1], "proto": TCP}] +
                 end(p) + [{"op": "tcp", "t": user, "sport": p, "direct": False}] + conn(other, d1, q) + rel(q) + rel(p), 0))
+    # two threads of ONE process between the hooks at the same time (nothing orders their connect() calls): each
+    # connection's record must be built from its own thread's pending entry -- destinations and credentials differ
+    user_c = {"pid": base + 2, "tid": base + 2, "uid": 0, "gid": 2004}          # the process' main thread kept uid 0
+    for nm, a, da, b, db in (("siblings-other-dest", user, d1, user_b, d2), ("siblings-other-cred", user_c, d1, user, d1),
+                             ("siblings-main-and-worker", user, d2, user_c, d3)):
+        for order in ("abab", "abba"):
+            p, q = next(ports), next(ports)
+            c4a = {"op": "connect4", "t": a, "ip": da[0], "port": da[1], "proto": TCP}
+            c4b = {"op": "connect4", "t": b, "ip": db[0], "port": db[1], "proto": TCP}
+            ta = {"op": "tcp", "t": a, "sport": p, "direct": False}
+            tb = {"op": "tcp", "t": b, "sport": q, "direct": False}
+            mid = [c4a, c4b, ta, tb] if order == "abab" else [c4a, c4b, tb, ta]
+            out.append(("%s-%s" % (nm, order), pre(d1, d2, d3) + mid + rel(p) + rel(q), 0))
     p = next(ports)
     out.append(("reuse-chain",                           # three generations under one port, the last one consumed
                 pre(d1, d2, d3) + conn(root, d1, p) + end(p) + conn(user, d2, p) + end(p) + conn(other, d3, p) + rel(p) +
@@ -1148,6 +1161,7 @@ def run(c):
     finally:
         an.close()
         codec.close()
+    real_policy_map(c)
     c.exhaustive = False
     c.rule = ("TLC: all interleavings of mc/Ebpf.cfg (4 threads incl. uid!=gid, pid!=tid, agent; 2x2 addresses, TCP/UDP, "
               "policy add/remove, capacity 2) and of mc/EbpfLeft.cfg (records outliving their connection, their source "
@@ -1158,7 +1172,20 @@ def run(c):
               "connections ending unconsumed and reuse of their ports, plus a directed family (L) of port-reuse runs "
               "(leftover then diverted / unlisted / agent / fallback connect on the same port, LRU eviction of a "
               "leftover), judged by TLC with trace/EbpfTrace. distinct_nontrivial = distinct generated behaviours containing at "
-              "least one diverted connect + distinct random runs")
+              "least one diverted connect + distinct random runs. Real maps: every instruction history of gen/PolicyMapGen "
+              "(every sequence of 5 update_*_redirect_policy calls; every sequence of secure-channel state changes in the key "
+              "keeper's call order) on the tree's eBPF object loaded into the kernel, policy_map read back after each call, "
+              "judged by trace/PolicyMapTrace")
+
+
+def real_policy_map(c):
+    """'... to an address CURRENTLY listed in the redirect policy': the user-space side of the policy on the REAL kernel map
+    (the tree's eBPF object compiled for the bpf target and loaded with BpfObject::from_ebpf_file, nothing attached): every
+    instruction history of spec/gen/PolicyMapGen through the real update_*_redirect_policy, policy_map read back after
+    every instruction, judged by spec/trace/PolicyMapTrace (checks/realmaps.py; shared with C09)."""
+    from checks import realmaps
+    c.assumptions.append(realmaps.ASSUME)
+    realmaps.policy_map_histories(c)
 
 
 def replay(c, path):
